@@ -1,9 +1,55 @@
 import Gzx.Util
+import Gzx.Model.BitSource
+import Gzx.Model.OneDPost
 namespace Gzx.Driver.C06
-open Gzx
+open Gzx Gzx.BitSource Gzx.OneDPost
+
+def showFault (e : Fault) : String :=
+  match e with
+  | .panic _ => "PANIC"
+  | e => "ERR:" ++ e.tag
+
+/-- a sequence of ReadBits calls on one source: results separated by ';', then the final offsets -/
+def runReads : BitSource → List Int → List String → String
+  | s, [], acc => ";".intercalate acc.reverse ++ s!" @{s.byteOffset}.{s.bitOffset} a={available s}"
+  | s, n :: ns, acc =>
+    match readBits s n with
+    | .ok (v, s') => runReads s' ns (toString v :: acc)
+    | .error e => runReads s ns (showFault e :: acc)
+
+def showBytesRes : Res (List Nat) → String
+  | .ok bs => "ok " ++ showHex bs
+  | .error e => showFault e
 
 /-- line-protocol handler of suite `c06` (arguments after the suite name) -/
 def handle : List String → String
+  | ["rb", hex, ns] =>
+    match parseHex? hex, parseIntList? ns with
+    | some bs, some ns => runReads (BitSource.new bs) ns []
+    | _, _ => "bad-op"
+  | ["eci", hex, skip] =>
+    match parseHex? hex, parseInt? skip with
+    | some bs, some k =>
+      let s0 := BitSource.new bs
+      let s1 := match readBits s0 k with
+        | .ok (_, s') => s'
+        | .error _ => s0
+      match parseECIValue s1 with
+      | .ok (v, s') => s!"ok {v} @{s'.byteOffset}.{s'.bitOffset}"
+      | .error e => showFault e
+    | _, _ => "bad-op"
+  | ["c39", ck, ext, hex] =>
+    match parseHex? hex with
+    | some s => showBytesRes (c39Post (ck == "1") (ext == "1") s)
+    | none => "bad-op"
+  | ["c39orig", ck, ext, hex] =>
+    match parseHex? hex with
+    | some s => showBytesRes (c39PostOrig (ck == "1") (ext == "1") s)
+    | none => "bad-op"
+  | ["c93", hex] =>
+    match parseHex? hex with
+    | some s => showBytesRes (c93Post s)
+    | none => "bad-op"
   | _ => "bad-op"
 
 end Gzx.Driver.C06
